@@ -47,7 +47,7 @@ from rsx import ExtractError  # noqa: E402
 
 REPO = os.environ.get("VERIF_REPO", "/repo")
 VERIF = os.path.dirname(os.path.dirname(os.path.abspath(__file__)))
-BUILD = os.path.join(VERIF, "build", "vx")
+BUILD = os.environ.get("VERIF_VX_BUILD") or os.path.join(VERIF, "build", "vx")
 
 
 # ---------------------------------------------------------------------------
